@@ -6,6 +6,24 @@ TECH = "runtime monitoring: post-conditions / lock-step reference models / offli
 
 # id -> (category, technique, level text, level note, design ref)
 CLAIMED = {
+ "C01": ("exploration", "post-condition monitor on every sampling return, judged row by row by an independent float64 twin geometry; logical progress budget",
+         "Held on K generated domain expressions x sampling calls: every returned row lies in the twin set at its own parameter row (interior: level <= 2e-5 L; boundary: on the level set and two-sided), coordinates finite, every call returned within its proposal budget. Exploration is the right level: the property quantifies over all expressions / counts / parameter batches; reach comes from the seeded generator, the evidence lists classes and mechanisms reached.",
+         "Trusts the twin geometry (self-validated at setup: closed-form measures vs hit counting) and numpy; shapes restricted to the float32 conditioning regime of DESIGN.md 3.1; ambiguous near-tangential seam rows are counted, not judged.", "DESIGN.md 4 C01"),
+ "C02": ("exploration", "post-condition monitor on counts / spaces / parameter columns + recorded inner sampler returns checked against the stated combination (product, sum, append, static)",
+         "Held on K sampling calls and K sampler compositions: n*k rows, spaces in order, parameter columns bit-for-bit repeat_interleave, products pair each partner row with a full sample of the first factor, sums concatenate, appends column-stack, len(sampler) consistent.",
+         "Inner sampler outputs are recorded by instance-level probes at the sample_points boundary; density calls are judged for layout only (counts belong to C10).", "DESIGN.md 4 C02"),
+ "C05": ("exploration", "post-condition monitor on _contains/__contains__ against the float64 twin membership outside a tolerance band; own boundary samples must be accepted",
+         "Held on K query rows over generated expressions with shuffled per-row parameters: library membership equals the twin wherever the level is >= 1e-3 L from the boundary; boundary membership accepts its own samples, rejects far points, one truth value per row.",
+         "Trusts the twin; agreement not judged inside the band (property's 'small tolerance').", "DESIGN.md 4 C05"),
+ "C06": ("exploration", "post-condition monitor on normal() at the library's own boundary samples: finite, unit, step test against the twin set, agreement with the twin's level gradient",
+         "Held on K boundary rows of primitives and nested unions/cuts/intersections for all generated positions, sizes, orientations and parameter rows.",
+         "Rows within 4 eps of a corner/other boundary piece are counted, not judged; triangles counter-clockwise (documented precondition).", "DESIGN.md 4 C06"),
+ "C10": ("exploration", "post-condition monitor on volume() and on density sampling counts against closed-form float64 measures; statistical interval (alpha 1e-9) for rejection based shapes",
+         "Held on K volume()/density calls: primitives and boundaries equal the analytic measure per parameter row, flagged unions/cuts/independent products/transforms follow the algebra, set_volume overrides, density counts are ceil(d*measure) (exactly / in expectation / as an upper bound for grids).",
+         "Closed forms of the twin; Boolean combinations without flags are documented estimates and not judged for volume().", "DESIGN.md 4 C10"),
+ "C18": ("exploration", "post-condition monitor on bounding_box() and its consumers (NormalizationLayer, LHS proposal box) against twin points, twin support points and own samples",
+         "Held on K domain points per generated expression and parameter row: all inside the returned box (both accepted layouts), primitives tight, normalized points in [-1,1]^d, LHS proposal boxes enclose the row's domain.",
+         "Twin points by rejection (20000 proposals per row): extreme points are approached to ~1% of the size; known finding D24b (dependent product box is a documented estimate) is listed in KNOWN_FINDINGS.json.", "DESIGN.md 4 C18"),
  "C20": ("exploration", "metamorphic runtime monitor (roll-commutation, coarse/fine node equality, input version) on real forward calls",
          "Held on K generated layers/FNOs: every compared shift commutes to 1e-10, band-limited inputs agree across resolutions, inputs untouched. Exploration is the right level: the claim quantifies over all shapes/modes, which only sampling can approach at run time.",
          "Trusts torch.fft/torch.roll, float64 copies of the modules; batch-norm variant excluded (documented).", "DESIGN.md 4 C20"),
